@@ -89,6 +89,27 @@ def inputs(ctx):
         specs = all_specs(P, rng)
         for si, spec in enumerate(rng.sample(specs, min(len(specs), 6))):
             items.append(("rnd%d-%d" % (ci, si), P.tolist(), simpl.maybe_int(rng, P, spec)))
+    # extreme magnitudes on the y axis (the quantifier's "huge/tiny magnitudes"): finite ordinates whose squares, or sums of
+    # squares, overflow or underflow binary64 - every simplifier must still RETURN a well-formed reduction (round 17: a
+    # cost summed with math.fsum raises OverflowError where np.sum saturates)
+    import math
+    bump = np.column_stack([np.arange(9.0), np.tile([0.0, 1.0, 0.0], 3)])
+    ext = [(bump, sc) for sc in (4e153, 6e153, 9e153)]
+    for _ in range(16 if ctx.quick else 160):
+        ext.append((curves.random_curve(rng, 3, 30), rng.choice([1e100, 4e153, 9e153, 1.3e154, 1e200, 1e300, 1e-200, 1e-300])))
+    for ei, (P, sc) in enumerate(ext):
+        Q = np.array(P, float)
+        Q[:, 1] = Q[:, 1] / max(1.0, float(np.max(np.abs(Q[:, 1])))) * sc
+        if not np.all(np.isfinite(Q)):
+            continue
+        specs = [sp for sp in all_specs(Q, rng) if "t" not in sp or (math.isfinite(sp["t"]) and sp["t"] > 0 and (sp["cost"] != "r2" or sp["t"] <= 1))]
+        pick = rng.sample(specs, min(len(specs), 8))
+        if P is bump:
+            pick += [{"f": "grdp", "t": 0.9, "distance": d, "cost": "r2", "order": o} for d in simpl.DISTANCES for o in simpl.ORDERS[:1]]
+            pick += [{"f": "mp_grdp", "t": 0.9, "distance": simpl.DISTANCES[0], "cost": "r2", "order": simpl.ORDERS[0], "min_points": m} for m in (0, 5)]
+            pick += [{"f": "rdp", "t": 0.9, "distance": simpl.DISTANCES[0], "cost": "r2"}]
+        for si, spec in enumerate(pick):
+            items.append(("ext%d-%d" % (ei, si), Q.tolist(), spec))
     # long curves (size-dependent code paths), a few calls each
     for li, n in enumerate([1200, 3000] if ctx.quick else [1200, 3000, 6000, 10000]):
         x = np.arange(1, n + 1, dtype=float)
@@ -432,7 +453,8 @@ def run(ctx):
     ctx.rule = ("T: adversarial curves x the full configuration product; sampled grid curves (n<=6, y<=3, spacings 1..3), "
                 "random families, bundled-trace windows x sampled configurations of the 5 simplifiers. "
                 "non-trivial: the call refines at least once (a point beyond the two ends is retained or dropped) "
-                "and the curve has n >= 3. "
+                "and the curve has n >= 3. Extreme magnitudes: ordinates scaled to 1e100..1e300 and 1e-200..1e-300 "
+                "(squares or their sums overflow / underflow): every simplifier must still return a well-formed reduction. "
                 "Scale family: deep one-sided refinements (zigzag / spikes / sawtooth / growing staircase, 500..6500 points, "
                 "hundreds to thousands of pending segments) and plain long curves (7 shapes, sizes just above 1024 .. 10^5) "
                 "through the 5 simplifiers, plus dense threshold-rdp results (10^4..10^5 retained indices); every clause of "
